@@ -248,6 +248,16 @@ struct BitsetSlot : SlotBase
    celma::prog_args::detail::ICheck* check(const string& k, const string& a, const string& b) override { return numCheck<int>(k, a, b); }
 };
 
+/// bitset with more than one storage word (a wrong position then leaves the object instead of wrapping inside the word)
+struct BigBitsetSlot : SlotBase
+{
+   std::unique_ptr<std::bitset<100>> v{ new std::bitset<100>() };
+   TypedArgBase* dest(const string& name) override { return destination(*v, name); }
+   void init(const vector<string>& e) override { v->reset(); for (auto const& s : e) v->set(atoi(s.c_str())); }
+   string dump() const override { return "b" + v->to_string(); }
+   celma::prog_args::detail::ICheck* check(const string& k, const string& a, const string& b) override { return numCheck<int>(k, a, b); }
+};
+
 struct VecBoolSlot : SlotBase
 {
    std::unique_ptr<vector<bool>> v{ new vector<bool>() };
@@ -348,6 +358,7 @@ static SlotBase* makeSlot(const string& name)
    if (k == "ar") return new StdArraySlot();
    if (k == "tu") return new TupleSlot();
    if (k == "bs") return new BitsetSlot();
+   if (k == "bb") return new BigBitsetSlot();
    if (k == "vb") return new VecBoolSlot();
    if (k == "db") return new DynBitsetSlot();
    if (k == "mp") return new MapSlot<std::map<string, int>>();
